@@ -34,10 +34,41 @@ def parseOp (j : J) : Except String Op := do
   else if k = "syncExit" then pure .syncExit
   else throw s!"unknown op {k}"
 
-def parseEv (j : J) : Except String Ev := do
+/-- a trace entry: the operation a thread performed on a shared object, given as the model actions that operation can be
+    (`a|b|c`: the harness identifies operations by the OBJECT they touch, not by the statement performing them) -/
+structure EvC where
+  tid : Tid
+  sites : List Site
+  timeout : Bool
+
+def parseEv (j : J) : Except String EvC := do
   match ← j.asArr with
-  | [t, s, o] => pure { tid := ← t.asNat, site := ← parseSite (← s.asStr), timeout := (← o.asNat) ≠ 0 }
-  | _ => throw "trace entry must be [tid, site, timeout]"
+  | [t, s, o] =>
+    let names := (← s.asStr).splitOn "|"
+    pure { tid := ← t.asNat, sites := ← names.mapM parseSite, timeout := (← o.asNat) ≠ 0 }
+  | _ => throw "trace entry must be [tid, site|site.., timeout]"
+
+/-- model actions without an event of their own (they read state that only changes under a lock the thread holds): taken
+    just before the thread's next event -/
+def silent : Site → Bool
+  | .cl_isNone => true
+  | _ => false
+
+/-- `Handoff.replay` for entries with alternatives: the thread's labelled next action (after its silent ones) must be among
+    the entry's alternatives and be enabled. -/
+def replayC (s : State) (n : Nat) : List EvC → Except (Nat × State) State
+  | [] => .ok s
+  | e :: es =>
+    let s1 := match siteOf s e.tid with
+      | some x => if silent x && !(e.sites.contains x) then (step s e.tid).getD s else s
+      | none => s
+    match siteOf s1 e.tid with
+    | none => .error (n, s1)
+    | some x =>
+      if !(e.sites.contains x) then .error (n, s1)
+      else match (if e.timeout then stepT s1 e.tid else step s1 e.tid) with
+        | none => .error (n, s1)
+        | some s' => replayC s' (n + 1) es
 
 /-- user program items: 0 = `yield False`, 1 = `yield 0`, 2 = `callLater(f)`, 3+v = `schedule(v)` inside the slice -/
 def parseBools (j : J) : Except String (List UItem) := do
@@ -77,7 +108,7 @@ def handleReplay (j : J) : Except String J := do
   let progs ← (← j.array "progs").mapM fun p => do (← p.asArr).mapM parseOp
   let trace ← (← j.array "trace").mapM parseEv
   let s0 := init (← j.boolean "threaded") users progs
-  match replay s0 0 trace with
+  match replayC s0 0 trace with
   | .ok s => pure (J.mk (("ok", J.bool true) :: obsOf s))
   | .error (n, s) =>
     let e := trace[n]?
